@@ -33,8 +33,13 @@ def sym_hello(P):
     rnd = I.construct(TlsHandshakeHelloRandom, [], dict(time=V.SDateTime(secs, z3.IntVal(0), aware=False),
                                                         random=TlsHandshakeHelloRandomBytes(bytearray(range(28)))))
     P.inputs.update(cipher_suite_codes=codes, fallback_scsv=fb, empty_renegotiation_info_scsv=er, gmt_unix_time=V.SInt(secs))
-    return I.construct(TlsHandshakeClientHello, [], dict(cipher_suites=suites, random=rnd, fallback_scsv=fb,
-                                                         empty_renegotiation_info_scsv=er))
+    kw = dict(cipher_suites=suites, random=rnd, fallback_scsv=fb, empty_renegotiation_info_scsv=er)
+    if P.choose('hello carries a renegotiation_info extension'):
+        # the one extension whose presence interacts with a cipher-suite marker (RFC 5746): both may be sent together
+        from cryptoparser.tls.extension import TlsExtensionRenegotiationInfo
+        kw['extensions'] = [TlsExtensionRenegotiationInfo()]
+        P.inputs['extensions'] = ['renegotiation_info']
+    return I.construct(TlsHandshakeClientHello, [], kw)
 
 
 def thunk():
@@ -91,7 +96,7 @@ def run():
 def _run():
     e2.setup()
     r = vc.run_unit('hello', thunk, max_paths=4000)
-    r.extra['bounded'] = sorted(set(r.extra.get('bounded', [])) | {'ClientHello with at most %d cipher suites (each code symbolic over 2^16), default version/random/session id/compression, no extensions' % MAX_SUITES})
+    r.extra['bounded'] = sorted(set(r.extra.get('bounded', [])) | {'ClientHello with at most %d cipher suites (each code symbolic over 2^16), default version/random/session id/compression, extensions: none or an empty renegotiation_info' % MAX_SUITES})
     return r
 
 
@@ -111,18 +116,21 @@ def native_search(seed, hints=()):
     for n in (0, 1, 2, 3):
         for _ in range(25):
             codes = [rnd.choice(pool) for _ in range(n)]
-            for fb in (False, True):
-                for er in (False, True):
+            for fb, er, with_ext in [(a, b, c) for a in (False, True) for b in (False, True) for c in (False, True)]:
+                if True:
                     try:
                         import datetime
                         from cryptoparser.tls.subprotocol import TlsHandshakeHelloRandom, TlsHandshakeHelloRandomBytes
+                        from cryptoparser.tls.extension import TlsExtensionRenegotiationInfo
                         o = TlsHandshakeClientHello([item(c) for c in codes], fallback_scsv=fb, empty_renegotiation_info_scsv=er,
                                                     random=TlsHandshakeHelloRandom(datetime.datetime(2021, 3, 4, 5, 6, 7),
-                                                                                   TlsHandshakeHelloRandomBytes(bytearray(range(28)))))
+                                                                                   TlsHandshakeHelloRandomBytes(bytearray(range(28)))),
+                                                    **(dict(extensions=[TlsExtensionRenegotiationInfo()]) if with_ext else {}))
                     except Exception:
                         continue
                     before = copy.deepcopy(o)
-                    call = 'TlsHandshakeClientHello(%s, fallback_scsv=%s, empty_renegotiation_info_scsv=%s)' % ([hex(c) for c in codes], fb, er)
+                    call = 'TlsHandshakeClientHello(%s, fallback_scsv=%s, empty_renegotiation_info_scsv=%s%s)' % (
+                        [hex(c) for c in codes], fb, er, ', extensions=[TlsExtensionRenegotiationInfo()]' if with_ext else '')
                     try:
                         w1 = bytes(o.compose())
                         w2 = bytes(o.compose())
